@@ -593,6 +593,7 @@ type wireCase struct {
 	ID     int      `json:"id"`
 	T      *Node    `json:"t"`
 	Ignore []string `json:"ignore"`
+	Expect *Node    `json:"expect"` // binding self-test only: the tree that must come back from the wire (instead of t)
 }
 
 // runWireObserve executes trees OUTSIDE the property's domain and only reports what happens (never a verdict).
@@ -653,6 +654,24 @@ func runWire(data json.RawMessage) vh.Verdict {
 		return vh.Fail("harness-json", "bad case: %v", err)
 	}
 	stats := map[string]int{}
+	if c.Expect != nil {
+		e0, err0 := build(c.T, true)
+		want, err1 := build(c.Expect, true)
+		if err0 != nil || err1 != nil {
+			return vh.Fail("harness-build", "cannot build: %v %v", err0, err1)
+		}
+		p1, err := e0.ToProto()
+		if err != nil {
+			return vh.Fail("toproto-error", "%v", err)
+		}
+		e1, err := b6.ExpressionFromProto(p1)
+		if err != nil {
+			return vh.Fail("fromproto-error", "%v", err)
+		}
+		if canon(deep(e1, true)) != canon(deep(want, true)) {
+			return vh.Verdict{OK: false, Key: "selftest-expectation", Msg: fmt.Sprintf("back from the wire %s, case expects %s", canon(deep(e1, true)), canon(deep(want, true)))}
+		}
+	}
 	check, msg := wireCheck(c.T, stats)
 	if check == "" {
 		stats["roundtrips_ok"]++
